@@ -13,7 +13,7 @@ def sh(cmd, cwd=None, e=None):
     return p.returncode, p.stdout + p.stderr
 
 
-for patch in sys.argv[1:]:
+for patch in [os.path.abspath(a) for a in sys.argv[1:]]:
     W = '/tmp/refcheck-%d' % os.getpid()
     sh('git -C /repo worktree add -q --detach %s HEAD' % W)
     try:
@@ -24,12 +24,16 @@ for patch in sys.argv[1:]:
         ok = 'FAILED' not in out and 'error' not in out and 'test result: ok' in out
         res = {}
         alarms = []
+        notv = set()
         for pid in sorted(props.PROPS):
             rc, out = sh('./check %s' % pid, cwd=VERIF, e=dict(env, PURL_REPO=W))
             res[pid] = rc
+            for l in out.split('\n'):
+                if l.startswith('NOT-VERIFIED'):
+                    notv.add(l.split(': V ')[1].split(':')[0] if ': V ' in l else l[:80])
             if rc == 1:
                 alarms.append((pid, [l[:300] for l in out.split('\n') if l.startswith('VIOLATION')][:3]))
-        print(patch, 'suite_ok=%s' % ok, 'exits', {k: v for k, v in res.items() if v != 0} or 'all 0', flush=True)
+        print(patch, 'suite_ok=%s' % ok, 'exits', {k: v for k, v in res.items() if v != 0} or 'all 0', 'verifier-not-asked:', sorted(notv) or '-', flush=True)
         for a in alarms:
             print('   FALSE ALARM?', a, flush=True)
     finally:
